@@ -155,7 +155,7 @@ class SelP(_DockProp):
         start, end = _T0, _T0 + 10 * _S
         q = g.query_text(sel, [], rng.choice(["spaced", "tight", "spaced"]))
         evals = [{"q": b64e(q), "qcoq": "DQLog (%s) 0" % g.query_coq(sel, []), "limit": 0, "start": start, "end": end, "step": 0, "release": list(range(len(ctrs))),
-                  "exp_selected": exp, "exp_opts": {cid: [str(start // _S), str(end // _S)] for cid in exp}, "must_err": False, "must_ok": True}]
+                  "exp_selected": exp, "exp_opts": {cid: [str(start // _S), str(-(-end // _S))] for cid in exp}, "must_err": False, "must_ok": True}]
         return {"kind": "keyword" if k in logql_keywords() else "key", "ctrs": [c.json() for c in ctrs], "ctrs_coq": clist(c.coq() for c in ctrs),
                 "ctrs_intended_coq": clist(c.coq(False) for c in ctrs), "list_fail": False, "oracle": _oracles_coq(), "evals": evals, "same": [], "faults": [],
                 "summary": ["%s labels=%r" % (c.id, c.labels) for c in ctrs], "note": "docker label key %r -> {%s=\"%s\"}" % (k, lname, v)}
